@@ -181,6 +181,9 @@ class M:
 
     def flag(self, o, x):
         if len(self.viol) < 20:
+            if getattr(self, 'tainted', False) and \
+                    not o.startswith('rollback-over-resaved-blob/'):
+                o = 'rollback-over-resaved-blob/' + o
             self.viol.append((o, x))
 
     def data(self):
@@ -346,6 +349,9 @@ class M:
 
     def end_ok(self):
         n = self.adopt()
+        if getattr(self, 'tainted', False):
+            # the wrong bytes were committed: the shadow cannot follow
+            self.tainted = 'committed'
         for info in self.blobs.values():
             info['committed'] = info['pending']
         self.sps = []
@@ -353,6 +359,8 @@ class M:
         return n
 
     def end_fail(self):
+        if getattr(self, 'tainted', False) is True:
+            self.tainted = False
         if self.dirty_blob_txn:
             self.nfail += 1
         for k, info in list(self.blobs.items()):
@@ -530,7 +538,14 @@ class M:
             self.flag('rollback-raises', '%s: %s' % (type(e).__name__,
                                                      str(e)[:80]))
             return
+        # blobs that a *later* savepoint saved again with other bytes: the
+        # temporary store keeps one file per (oid, serial), see
+        # known_findings.json
+        later = self.sps[j + 1:]
+        resaved = {k for k, v in snap.items()
+                   if any(k in s2 and s2[k] != v for _, s2 in later)}
         del self.sps[j + 1:]
+        nv = len(self.viol)
         for k in list(self.blobs):
             if k in snap:
                 self.blobs[k]['pending'] = snap[k]
@@ -541,6 +556,11 @@ class M:
         self.trace.append('rb')
         self.check_files('after rollback')
         self.check_reads(self.A, 'after rollback', committed_only=False)
+        if resaved:
+            self.tainted = True
+        if getattr(self, 'tainted', False):
+            self.viol[nv:] = [('rollback-over-resaved-blob/' + o, x)
+                              for o, x in self.viol[nv:]]
 
     def op_readB(self):
         self.B.begin()
